@@ -1,0 +1,276 @@
+//go:build verif
+
+// Machine-checked contracts for package writer (comment-only; read by /verif/govc).
+//
+// Writer invariant WI(w): the writer exists and, while no error is recorded, owns a state with
+// a buffer; it is explicitly owned (not handed back to the writer pool on close - pooled writers
+// are the subject of C18, not C12). Every method requires and re-establishes WI, and the first
+// error is sticky.
+package writer
+
+//@ package github.com/basecomplextech/spec/internal/writer
+
+//@ modifies-group STACKS = writer.stack.*, writer.listStack.*, writer.messageStack.*, writer.stackEntry.*, format.ListElement.*, format.MessageField.*
+//@ modifies-group STATE = writer.writerState.*, @STACKS
+//@ modifies-group WRITER = writer.writer.*, @STATE, pools.*
+//@ modifies-group BUF = buffer.*, uint8
+
+//@ define WI(w) = w != nil && (w.err == nil ==> w.writerState != nil && w.writerState.buf != nil)
+//@      && (w.writerState != nil ==> !w.writerState.releaseWriter)
+//@ define STICKY(w, r) = (old(w.err) != nil ==> w.err == old(w.err) && r == old(w.err)) && (old(w.err) == nil && r != nil ==> w.err != nil)
+
+// ---- stack of open objects
+
+//@ func (*stack).reset
+//@   safety[C12]
+//@   requires s != nil
+//@   modifies writer.stack.*
+//@   ensures len(s.stack) == 0
+
+//@ func (*stack).len
+//@   safety[C12]
+//@   requires s != nil
+//@   ensures result == len(s.stack)
+
+//@ func (*stack).peek
+//@   safety[C12]
+//@   requires s != nil
+//@   ensures result1 <==> len(s.stack) > 0
+//@   ensures result1 ==> result0.start == s.stack[len(s.stack)-1].start && result0.tableStart == s.stack[len(s.stack)-1].tableStart && result0.type_ == s.stack[len(s.stack)-1].type_
+
+//@ func (*stack).peekSecondLast
+//@   safety[C12]
+//@   requires s != nil
+//@   ensures result1 <==> len(s.stack) > 1
+//@   ensures result1 ==> result0.start == s.stack[len(s.stack)-2].start && result0.tableStart == s.stack[len(s.stack)-2].tableStart && result0.type_ == s.stack[len(s.stack)-2].type_
+
+//@ func (*stack).pop
+//@   safety[C12]
+//@   requires s != nil
+//@   modifies writer.stack.*
+//@   ensures result1 <==> old(len(s.stack)) > 0
+//@   ensures result1 ==> len(s.stack) == old(len(s.stack)) - 1 && obj(s.stack) == old(obj(s.stack)) && off(s.stack) == old(off(s.stack))
+//@   ensures !result1 ==> len(s.stack) == 0
+//@   ensures result1 ==> result0.start == old(s.stack[len(s.stack)-1].start) && result0.tableStart == old(s.stack[len(s.stack)-1].tableStart) && result0.type_ == old(s.stack[len(s.stack)-1].type_)
+
+//@ func (*stack).pushData
+//@   safety[C12]
+//@   requires s != nil
+//@   modifies writer.stack.*
+//@   modifies writer.stackEntry.*
+//@   ensures len(s.stack) == old(len(s.stack)) + 1
+//@   ensures s.stack[len(s.stack)-1].start == start && s.stack[len(s.stack)-1].tableStart == end && s.stack[len(s.stack)-1].type_ == 1
+
+//@ func (*stack).pushList
+//@   safety[C12]
+//@   requires s != nil
+//@   modifies writer.stack.*
+//@   modifies writer.stackEntry.*
+//@   ensures len(s.stack) == old(len(s.stack)) + 1
+//@   ensures s.stack[len(s.stack)-1].start == start && s.stack[len(s.stack)-1].tableStart == tableStart && s.stack[len(s.stack)-1].type_ == 2
+
+//@ func (*stack).pushElement
+//@   safety[C12]
+//@   requires s != nil
+//@   modifies writer.stack.*
+//@   modifies writer.stackEntry.*
+//@   ensures len(s.stack) == old(len(s.stack)) + 1
+//@   ensures s.stack[len(s.stack)-1].start == start && s.stack[len(s.stack)-1].type_ == 3
+
+//@ func (*stack).pushMessage
+//@   safety[C12]
+//@   requires s != nil
+//@   modifies writer.stack.*
+//@   modifies writer.stackEntry.*
+//@   ensures len(s.stack) == old(len(s.stack)) + 1
+//@   ensures s.stack[len(s.stack)-1].start == start && s.stack[len(s.stack)-1].tableStart == tableStart && s.stack[len(s.stack)-1].type_ == 4
+
+//@ func (*stack).pushField
+//@   safety[C12]
+//@   requires s != nil
+//@   modifies writer.stack.*
+//@   modifies writer.stackEntry.*
+//@   ensures len(s.stack) == old(len(s.stack)) + 1
+//@   ensures s.stack[len(s.stack)-1].start == start && s.stack[len(s.stack)-1].tableStart == tag && s.stack[len(s.stack)-1].type_ == 5
+
+//@ func (stackEntry).end
+//@   safety[C12]
+//@   ensures result == e.tableStart
+
+//@ func (stackEntry).tag
+//@   safety[C12]
+//@   ensures result == e.tableStart % 65536
+
+// ---- element and field table stacks
+
+//@ func (*listStack).reset
+//@   safety[C12]
+//@   requires s != nil
+//@   modifies writer.listStack.*
+//@   ensures len(s.stack) == 0
+
+//@ func (*listStack).offset
+//@   safety[C12]
+//@   requires s != nil
+//@   ensures result == len(s.stack)
+
+//@ func (*listStack).len
+//@   safety[C12]
+//@   requires s != nil
+//@   requires 0 <= tableOffset && tableOffset <= len(s.stack)
+//@   ensures result == len(s.stack) - tableOffset
+
+//@ func (*listStack).push
+//@   safety[C12]
+//@   requires s != nil
+//@   modifies writer.listStack.*
+//@   modifies format.ListElement.*
+//@   ensures len(s.stack) == old(len(s.stack)) + 1
+//@   ensures s.stack[len(s.stack)-1].Offset == elem.Offset
+//@   ensures forall k :: 0 <= k && k < old(len(s.stack)) ==> s.stack[k].Offset == old(s.stack[k].Offset)
+
+//@ func (*listStack).pop
+//@   safety[C12]
+//@   requires s != nil
+//@   requires 0 <= tableOffset && tableOffset <= len(s.stack)
+//@   modifies writer.listStack.*
+//@   ensures len(s.stack) == tableOffset && obj(s.stack) == old(obj(s.stack)) && off(s.stack) == old(off(s.stack))
+//@   ensures obj(result) == old(obj(s.stack)) && off(result) == old(off(s.stack)) + tableOffset && len(result) == old(len(s.stack)) - tableOffset
+
+//@ func (*messageStack).reset
+//@   safety[C12]
+//@   requires s != nil
+//@   modifies writer.messageStack.*
+//@   ensures len(s.stack) == 0
+
+//@ func (*messageStack).offset
+//@   safety[C12]
+//@   requires s != nil
+//@   ensures result == len(s.stack)
+
+//@ func (*messageStack).insert
+//@   safety[C12]
+//@   requires s != nil
+//@   requires 0 <= tableOffset && tableOffset <= len(s.stack)
+//@   modifies writer.messageStack.*
+//@   modifies format.MessageField.*
+//@   ensures len(s.stack) == old(len(s.stack)) + 1
+//@   loop 1 modifies format.MessageField.* 
+//@   loop 1 invariant 0 <= i && i < len(table)
+
+//@ func (*messageStack).pop
+//@   safety[C12]
+//@   requires s != nil
+//@   requires 0 <= tableOffset && tableOffset <= len(s.stack)
+//@   modifies writer.messageStack.*
+//@   ensures len(s.stack) == tableOffset && obj(s.stack) == old(obj(s.stack)) && off(s.stack) == old(off(s.stack))
+//@   ensures obj(result) == old(obj(s.stack)) && off(result) == old(off(s.stack)) + tableOffset && len(result) == old(len(s.stack)) - tableOffset
+
+//@ func (*messageStack).hasField$1
+//@   safety[C12]
+//@   requires 0 <= i && i < len(table)
+
+//@ func (*messageStack).hasField
+//@   safety[C12]
+//@   requires s != nil
+//@   requires 0 <= tableOffset && tableOffset <= len(s.stack)
+
+// ---- writer state
+
+//@ func (*writerState).reset
+//@   safety[C12,C18]
+//@   requires s != nil
+//@   modifies @STATE
+//@   ensures s.buf == nil && len(s.stack.stack) == 0 && len(s.elements.stack) == 0 && len(s.fields.stack) == 0
+//@   ensures s.releaseState == old(s.releaseState) && s.releaseWriter == old(s.releaseWriter)
+
+//@ func (*writerState).init
+//@   safety[C12,C18]
+//@   requires s != nil
+//@   modifies @STATE
+//@   ensures s.buf == b && len(s.stack.stack) == 0 && len(s.elements.stack) == 0 && len(s.fields.stack) == 0
+//@   ensures s.releaseState == old(s.releaseState) && s.releaseWriter == old(s.releaseWriter)
+
+// ---- pools (assumed: New returns some non-nil object; Put takes it back)
+
+// ---- writer: error handling
+
+//@ func (*writer).Err
+//@   safety[C12]
+//@   requires w != nil
+//@   ensures result == w.err
+
+//@ func releaseWriterState
+//@   safety[C12,C18]
+//@   requires s != nil
+//@   modifies @STATE
+//@   modifies pools.*
+
+//@ func (*writer).freeState
+//@   safety[C12]
+//@   requires w != nil
+//@   modifies writer.writer.writerState*
+//@   modifies @STATE
+//@   modifies pools.*
+//@   ensures w.writerState == nil && w.err == old(w.err)
+
+//@ func (*writer).reset
+//@   safety[C12,C18]
+//@   requires w != nil
+//@   modifies writer.writer.err
+//@   modifies @STATE
+//@   ensures w.err == nil && w.writerState == old(w.writerState)
+//@   ensures w.writerState != nil ==> w.writerState.buf == nil && len(w.writerState.stack.stack) == 0 && len(w.writerState.elements.stack) == 0 && len(w.writerState.fields.stack) == 0
+
+//@ func (*writer).fail
+//@   safety[C12]
+//@   requires WI(w)
+//@   modifies @WRITER
+//@   ensures[C12] WI(w) && w.err != nil
+//@   ensures[C12] old(w.err) != nil ==> w.err == old(w.err) && result == old(w.err)
+//@   ensures[C12] old(w.err) == nil && err != nil ==> w.err == err && result == err
+//@   ensures[C12] old(w.err) == nil && err == nil ==> result == nil
+
+//@ func (*writer).failf
+//@   safety[C12]
+//@   requires WI(w)
+//@   modifies @WRITER
+//@   ensures[C12] result != nil && w.err != nil && result == w.err && WI(w)
+//@   ensures[C12] old(w.err) != nil ==> w.err == old(w.err)
+
+//@ func (*writer).close
+//@   safety[C12]
+//@   requires WI(w)
+//@   modifies @WRITER
+//@   ensures[C12] old(w.err) != nil ==> w.err == old(w.err) && result == old(w.err)
+//@   ensures[C12] old(w.err) == nil ==> result == nil && w.err != nil
+//@   ensures[C12] WI(w)
+//@   ensures[C12] w != nil
+//@   ensures[C12] w.writerState != nil ==> !w.writerState.releaseWriter
+//@   ensures[C12] w.err != nil
+
+//@ func (*writer).free
+//@   safety[C12]
+//@   requires w != nil && w.writerState != nil
+//@   modifies @WRITER
+//@   ensures !old(w.writerState.releaseWriter) ==> w.err == old(w.err)
+//@   ensures !old(w.writerState.releaseWriter) ==> w.writerState == nil
+
+//@ func (*writer).Free
+//@   safety[C12]
+//@   requires WI(w)
+//@   modifies @WRITER
+
+// ---- writer: data entries
+
+//@ func (*writer).pushData
+//@   safety[C12]
+//@   requires WI(w) && w.err == nil
+//@   modifies @WRITER
+//@   ensures[C12] WI(w) && (result != nil ==> w.err != nil && result == w.err) && (result == nil ==> w.err == nil)
+
+//@ func (*writer).popData
+//@   safety[C12]
+//@   requires WI(w) && w.err == nil
+//@   modifies @WRITER
+//@   ensures[C12] WI(w) && (err != nil ==> w.err != nil && err == w.err) && (err == nil ==> w.err == nil)
